@@ -617,6 +617,8 @@ class CollapseAmbiguities(Transformer):
         return sum(options, [])
 
     def __default__(self, data, children_lists, meta):
+        # Children that are neither trees nor tokens (such as the None placeholders of [..]) stay as they are
+        children_lists = [c if isinstance(c, list) else [c] for c in children_lists]
         return [Tree(data, children, meta) for children in combine_alternatives(children_lists)]
 
     def __default_token__(self, t):
